@@ -202,9 +202,21 @@ class Func:
         return self.ev.call(self, args, kwargs)
 
 
+_PLAIN_TYPES = (list, tuple, dict, set, frozenset, str, int, float, bool, bytes, type(None))
+
+
+def _isinstance(a, b):
+    """isinstance for the evaluated code: decided for the built-in container / scalar types (a `match` on a list, `isinstance(x, (list, tuple))`);
+    for anything else -- repo classes, sympy / numpy types against the witness stand-ins -- the answer stays False as before"""
+    ts = b if isinstance(b, tuple) else (b,)
+    if ts and all(isinstance(t, type) and t in _PLAIN_TYPES for t in ts):
+        return isinstance(a, ts)
+    return False
+
+
 BUILTINS = {"list": list, "sorted": sorted, "enumerate": lambda *a, **k: list(enumerate(*a, **k)), "len": len, "str": str, "zip": lambda *a: list(zip(*a)),
             "range": lambda *a: list(range(*a)), "tuple": tuple, "dict": dict, "set": set, "int": int, "float": float, "bool": bool,
-            "isinstance": lambda a, b: False, "repr": repr, "min": min, "max": max, "any": any, "all": all, "print": lambda *a, **k: None,
+            "isinstance": lambda a, b: _isinstance(a, b), "repr": repr, "min": min, "max": max, "any": any, "all": all, "print": lambda *a, **k: None,
             "getattr": getattr, "hasattr": hasattr, "sum": sum, "abs": abs, "reversed": lambda x: list(reversed(list(x))), "map": lambda f, *a: list(map(f, *a)),
             "filter": lambda f, a: list(filter(f, a)), "frozenset": frozenset, "round": round, "divmod": divmod, "iter": iter, "next": None, "type": type}
 
